@@ -379,7 +379,7 @@ def _plan_size(plan):
 
 
 def write_replay(prop, item, mplan, mv, execs):
-    d = os.path.join(boot.VERIF_DIR, "replays")
+    d = os.environ.get("VERIF_REPLAY_DIR") or os.path.join(boot.VERIF_DIR, "replays")
     os.makedirs(d, exist_ok=True)
     path = os.path.join(d, "%s-%d.json" % (prop, item["seed"]))
     w = world(mplan["world"])
@@ -470,7 +470,7 @@ REAL_STUB["repeat"] = REAL_STUB["session"]
 
 
 def write_evidence(prop, tier, master, totals, wall, n_viol, n_known, det_checked, budget, workers):
-    d = os.path.join(boot.VERIF_DIR, "evidence")
+    d = os.environ.get("VERIF_EVIDENCE_DIR") or os.path.join(boot.VERIF_DIR, "evidence")
     os.makedirs(d, exist_ok=True)
     distinct = sum(len(s) for s in totals["sigs"].values())
     rules = []
